@@ -21,6 +21,8 @@ CONTEXTS = {
     'mixed': dict(x=(0, 2), y=(-2, 1), b='bool', c='bool'),
     'allneg+wide': dict(x=(-4, -1), y=(0, 5), b='bool'),
     'twins': dict(x=(-1, 1), x2=(-1, 1), b='bool', b2='bool'),
+    # hints with a single value still range over their bits (0..1, -4..-1)
+    'singletons': dict(k=(0, 0), m=(-3, -3), x=(-2, 1), b='bool'),
 }
 
 
